@@ -158,9 +158,12 @@ fn c04(r: &mut Rng, i: u64, _p: &HashMap<String, String>) -> Vec<Value> {
     let deco = if kind >= 2 { "rich" } else { *r.pick(&["rich", "trivial"]) };
     let mut para = N::el("p", inl);
     if r.chance(1, 4) { para.add_attr("id", format!("p{}", r.below(1000))); }
+    let kind = if kind == 3 && r.chance(1, 2) { 4 } else { kind };
     let (body, pw) = match kind {
         2 => (vec![N::el("blockquote", vec![para])], 2u64),
         3 => (vec![N::el("ul", vec![N::el("li", vec![para])])], 2),
+        // the only item of an ordered list, numbered 9 / 99 / 1 / 5: the marker is as wide as that number needs
+        4 => { let st = *r.pick(&[9u64, 99, 1, 5, 999]); (vec![N::ela("ol", vec![("start", format!("{}", st))], vec![N::el("li", vec![para])])], format!("{}. ", st).len() as u64) }
         _ => (vec![para], 0),
     };
     let mut ops = vec![];
@@ -264,6 +267,15 @@ fn c11(r: &mut Rng, i: u64, p: &HashMap<String, String>) -> Vec<Value> {
         for _ in 0..r.range(1, 3) { node = match r.below(5) { 0 => N::el("blockquote", vec![node]), 1 => N::el("ul", vec![N::el("li", vec![node])]), 2 => N::el("ol", vec![N::el("li", vec![node])]), 3 => N::el("h2", vec![node]), _ => N::el("dl", vec![N::el("dd", vec![node])]) }; }
         body = vec![node];
     }
+    // and one more: a table most of whose columns are empty in every row, at widths below the number of columns
+    let edge3 = !edge && !edge2 && r.chance(1, 15);
+    if edge3 {
+        let ncols = r.range(2, 7) as usize; let nrows = r.range(1, 3);
+        let full = r.below(ncols as u64) as usize;
+        let rows: Vec<N> = (0..nrows).map(|_| N::el("tr", (0..ncols).map(|c| if c == full || r.chance(1, 8) { N::el("td", vec![N::T("a".into())]) } else { N::el("td", vec![]) }).collect())).collect();
+        body = vec![N::el("table", rows)];
+    }
+    let edge2 = edge2 || edge3;
     let edge = edge || edge2;
     let html = doc_html(&body);
     let bytes = if !edge && r.chance(1, 3) { mutate(r, html.as_bytes()) } else { html.into_bytes() };
@@ -284,10 +296,10 @@ fn c11(r: &mut Rng, i: u64, p: &HashMap<String, String>) -> Vec<Value> {
 fn ws_run(r: &mut Rng) -> String { (*r.pick(&[" ", "  ", "\n", "\t", " \n ", "\n\n", "\t \t", "   "])).to_string() }
 fn is_ws_char(c: char) -> bool { c == ' ' || c == '\n' || c == '\t' }
 const INLINE_PARENTS: &[&str] = &["p", "div", "li", "blockquote", "em", "strong", "code", "s", "del", "i", "span", "a", "h1", "h2", "h3", "h4", "h5", "h6", "dd", "dt", "section", "article", "center", "u", "body"];
-const BLOCK_PARENTS: &[&str] = &["div", "blockquote", "li", "ul", "dd", "body"];
+const BLOCK_PARENTS: &[&str] = &["div", "blockquote", "li", "ul", "ol", "dl", "dd", "body"];
 fn is_inline(n: &N) -> bool { match n { N::T(_) => true, N::Raw(_) => true, N::E(nm, _, _) => ["em", "strong", "code", "s", "del", "i", "span", "a", "img", "br", "u"].contains(&nm.as_str()) } }
 // elements the library itself lays out as blocks (sectioning elements are plain containers to it)
-fn is_block_el(n: &N) -> bool { match n { N::E(nm, _, _) => ["p", "div", "blockquote", "ul", "ol", "dl", "h1", "h2", "h3", "h4", "h5", "h6"].contains(&nm.as_str()), _ => false } }
+fn is_block_el(n: &N) -> bool { match n { N::E(nm, _, _) => ["p", "div", "blockquote", "ul", "ol", "dl", "h1", "h2", "h3", "h4", "h5", "h6", "li", "dt", "dd"].contains(&nm.as_str()), _ => false } }
 fn has_word(n: &N) -> bool { match n { N::T(s) => s.chars().any(|c| !is_ws_char(c)), N::Raw(_) => false, N::E(nm, _, k) => nm != "img" && k.iter().any(has_word) } }
 /// Rewrite the children list of element `pname`.
 fn rewrite_kids(r: &mut Rng, pname: &str, kids: &[N], rate: u64) -> Vec<N> {
@@ -342,10 +354,10 @@ fn rewrite_kids(r: &mut Rng, pname: &str, kids: &[N], rate: u64) -> Vec<N> {
         let mut o2 = Vec::new();
         for (k, n) in out.iter().enumerate() {
             let prev_block = k > 0 && is_block_el(&out[k - 1]);
-            if is_block_el(n) && (k == 0 || prev_block) && r.chance(1, rate) { o2.push(N::T(format!("\n{}", " ".repeat(r.below(5) as usize)))); }
+            if is_block_el(n) && (k == 0 || prev_block) && r.chance(1, rate) { o2.push(N::T(format!("\n{}", if r.chance(1, 3) { "\t".repeat(1 + r.below(2) as usize) } else { " ".repeat(r.below(5) as usize) }))); }
             o2.push(n.clone());
         }
-        if out.last().map(is_block_el).unwrap_or(false) && r.chance(1, rate) { o2.push(N::T("\n".into())); }
+        if out.last().map(is_block_el).unwrap_or(false) && r.chance(1, rate) { o2.push(N::T((*r.pick(&["\n", "\n\t", "\n  "])).to_string())); }
         out = o2;
     }
     out
@@ -1120,7 +1132,8 @@ fn c18(r: &mut Rng, i: u64, p: &HashMap<String, String>) -> Vec<Value> {
             match pick {
                 0 => { attrs.push(("class".into(), format!("h{}", nh))); rules.push(json!({"sels": [[{"comb": "", "name": "", "star": false, "cls": [format!("h{}", nh)], "id": "", "nth": []}]], "decls": [disp]})); }
                 1 => { attrs.push(("id".into(), format!("hid{}", nh))); rules.push(json!({"sels": [[{"comb": "", "name": name.clone(), "star": false, "cls": [], "id": format!("hid{}", nh), "nth": []}]], "decls": [disp]})); }
-                2 => { attrs.push(("style".into(), "display:none".into())); }
+                2 => { if r.chance(1, 4) { attrs.push(((*r.pick(&["bgcolor", "color"])).into(), (*r.pick(&["", "none", "#12", "transparent"])).into())); }
+                       attrs.push(("style".into(), "display:none".into())); }
                 3 => { let h = *r.pick(&["height:0", "height:0px", "max-height:0"]); let o = *r.pick(&["overflow:hidden", "overflow-y:hidden"]);
                        attrs.push(("style".into(), if r.chance(1, 2) { format!("{};{}", h, o) } else { format!("{};{}", o, h) })); }
                 _ => { attrs.push(("class".into(), format!("k{}", nh)));
